@@ -79,12 +79,9 @@ def reparse_if_needed(student_code=None, report=MAIN_REPORT):
             cait['ast'] = cait['cache'][student_code]
             cait['success'], cait['error'] = True, None
             return cait
-        # Try to steal parse from Source module, if available
-        if report[SOURCE_TOOL_NAME]['success']:
-            student_ast = report[SOURCE_TOOL_NAME]['ast']
-            cait['success'], cait['error'] = True, None
-        else:
-            student_ast = _parse_source(student_code, report=report)
+        # (The Source tool's tree is not taken over: verify() may have been
+        # given another program than the submission)
+        student_ast = _parse_source(student_code, report=report)
     cait['ast'] = CaitNode(student_ast, report=report)
     if cait['success']:
         cait['cache'][student_code] = cait['ast']
